@@ -427,7 +427,11 @@ where
 		false => unspents
 			.into_iter()
 			.filter(|x| match x.tx_log_entry.as_ref() {
-				Some(t) => tx_entries.iter().any(|te| te.id == *t),
+				Some(t) => {
+					tx_entries.iter().any(|te| te.id == *t)
+						|| x.status == OutputStatus::Locked
+						|| x.status == OutputStatus::Unconfirmed
+				}
 				None => true,
 			})
 			.collect(),
